@@ -392,7 +392,7 @@ impl LicenseParagraph {
     pub fn name(&self) -> Option<String> {
         self.0
             .get("License")
-            .and_then(|x| x.split_once('\n').map(|(name, _)| name.to_string()))
+            .map(|x| x.split_once('\n').map_or(x.as_str(), |(name, _)| name).to_string())
     }
 
     /// Text of the license
